@@ -189,15 +189,27 @@ def run_slice(path, fields, limit, serial, cn, pos, start=None, cache=None, cli_
 
 
 def run_case(ctx, rep, spec, cn, posname, pos, fields, limit, serial, model, path=None, truth=None, start=None, batch=None,
-             cache=None, cli=False):
+             cache=None, cli=False, previous=None):
     if path is None:
         path = ctx.newdir("c07_")
+        if previous is not None:
+            # another plotfile on the same mesh lived at this very path and was sliced in this process before
+            import shutil
+            plotgen.materialize(previous, path)
+            for ser in (True, False):
+                try:
+                    run_slice(path, fields, limit, ser, cn, pos)
+                except BaseException as e:
+                    if isinstance(e, KeyboardInterrupt): raise
+            shutil.rmtree(path)
         truth = plotgen.materialize(spec, path)
     names = dedup_names(spec["fields"])
     nlev = len(spec["levels"])
     L = nlev - 1 if limit is None else limit
     g = spec["geo_low"][cn]; G = g + spec["grid0"][cn] * spec["dx0"][cn]
     case = {"spec": spec, "normal": cn, "posname": posname, "pos": pos, "fields": fields, "limit": limit, "serial": serial, "cli": cli}
+    if previous is not None:
+        case["previous"] = previous; rep.count("path-rewritten-with-other-data-then-sliced-again")
     if cli: rep.count("console-script")
     if isinstance(fields, str): rep.count("bare-string-field")
     rep.case({"s": spec, "n": cn, "p": pos, "f": fields, "l": limit, "ser": serial, "cli": cli},
@@ -359,6 +371,11 @@ def run(ctx, rep, model=True):
                 m = plotgen.ulp_below(spec["grid0"][d])
                 if m is not None:
                     spec["geo_low"][d], spec["dx0"][d] = m; rep.count("box-bound-one-ulp-below-domain-bound")
+        if i % 4 == 1 and len(spec["levels"]) >= 2:
+            # cell sizes printed with 15 significant digits: the parsed sizes of two levels are not exact halves
+            hb = plotgen.halving_breaks(15, 3, len(spec["levels"]))
+            if len(hb) == 3:
+                spec["dx0"] = hb; spec["dx_digits"] = 15; rep.count("cell-sizes-with-15-digits-not-exact-halves")
         path = ctx.newdir("c07_")
         truth = plotgen.materialize(spec, path)
         if i % 2 == 1 and len(spec["fields"]) >= 2:
@@ -390,6 +407,15 @@ def run(ctx, rep, model=True):
                 if len(rep.violations) >= 12:
                     flush_model(rep, batch)
                     return
+        if i % 2 == 0:
+            # the plotfile is rewritten at the same path (same mesh and layout, other values) and sliced again in this process
+            import copy, shutil
+            spec2 = copy.deepcopy(spec); spec2["data"] = dict(spec["data"], seed=spec["data"]["seed"] + 101)
+            shutil.rmtree(path); truth2 = plotgen.materialize(spec2, path)
+            for cn in range(3):
+                for j, (nm, pos) in enumerate([x for x in positions(spec2, cn, ctx.rng) if x[1] is not None][:2]):
+                    run_case(ctx, rep, spec2, cn, nm, pos, [names[0], "grid_level"], None, (cn + j) % 2 == 0, model, path, truth2,
+                             batch=batch, previous=spec)
         flush_model(rep, batch)
     if not ctx.quick and not rep.violations:
         # real process pool
@@ -414,5 +440,5 @@ def replay(ctx, rep, obj, model=True):
     batch = [] if model else None
     pos = c["pos"] if c.get("posname") != "default" else None
     run_case(ctx, rep, c["spec"], c["normal"], c.get("posname", "?"), pos, c["fields"], c["limit"], c["serial"], model, batch=batch,
-             cli=c.get("cli", False))
+             cli=c.get("cli", False), previous=c.get("previous"))
     flush_model(rep, batch)
